@@ -154,7 +154,7 @@ func runWs(cf wsConf, choices []int, free bool) wsRun {
 				mu.Lock()
 				cur[name] = o
 				mu.Unlock()
-				t0 := time.Now()
+				t0, h0 := time.Now(), s.Held()
 				var r string
 				switch o.kind {
 				case "K":
@@ -167,7 +167,10 @@ func runWs(cf wsConf, choices []int, free bool) wsRun {
 				}
 				mu.Lock()
 				res.rets[w] = append(res.rets[w], r)
-				res.durs[w] = append(res.durs[w], time.Since(t0))
+				// under the scheduler the call's wall-clock time includes the time goroutines were
+				// held at yield points: not the library's time
+				d := time.Since(t0) - (s.Held() - h0)
+				res.durs[w] = append(res.durs[w], d)
 				mu.Unlock()
 			}
 		})
